@@ -42,6 +42,8 @@ class Obligation:
     expect_refuted: bool = False    # canaries and covers: the *negated* expectation
     replay: Optional[Dict[str, Any]] = None  # filled by the sidecar's model->input mapping
     function: str = ""
+    soft: bool = False              # a design rule the other contracts lean on (purity, frames): refuted => the proofs that assume it are void
+                                    # (undecided) unless the bounded layer holds a native witness; never a violation on its own
 
     def to_json(self) -> Dict[str, Any]:
         d = dict(self.__dict__)
